@@ -878,6 +878,12 @@ impl<'a> Ctx<'a> {
       {
         let p = self.expr(args[0], None)?;
         let n = self.expr(args[1], Some(&Ty::Usize))?;
+        if let (Ty::Addr(e), true) = (&p.ty, full.starts_with("core::slice::") && matches!(self.self_ty, Some(Ty::BoxBytes))) {
+          // Deref for BoxBytes: the block's bytes as a slice (not an owning container)
+          let elem = (**e).clone();
+          let (code, pure) = self.seq(vec![p, n], |v| (format!("(mkSlice (mkPtr {} {}) {})", v[0], v[1], v[1]), true));
+          return Ok(Tr { code, ty: Ty::Ref(Box::new(Ty::SliceOf(Box::new(elem)))), pure });
+        }
         if let Ty::Addr(e) = &p.ty {
           // a slice container made of a bare address and a length
           let elem = (**e).clone();
